@@ -173,4 +173,15 @@ def templates(tier="quick"):
     v = Variant("v0", [o, p, Stmt("bin/app", ex=["obj dir/x y.o", "obj dir/z.o"])])
     T += _mk("spaces_depfile_dir", [v], tags=["mkdirs", "spaces", "depfile"], depth=d, files={"inc dir/h.h": "h\n"})
 
+    # T22 dyndep information discovered mid-build names the output of a pooled / console / plain statement that is
+    # already running, already delayed by its pool, or already done (the discovered producer was ready at the start)
+    from family_cycles import dyndep_text
+    for pname, pools, pool in (("none", {}, ""), ("depth1", {"pp": 1}, "pp"), ("depth2", {"pp": 2}, "pp"), ("console", {}, "console")):
+        dd = dyndep_text([("out", [], ["x"], False)])
+        v = Variant("v0", [Stmt("dd", ex=["dd.in"], copy=True), Stmt("x", ex=["s"], pool=pool), Stmt("w", ex=["t"], pool=pool),
+                           Stmt("out", ex=["in"], oo=["dd"], dyndep="dd", extra_reads=["x"]), Stmt("top", ex=["out", "w"])],
+                    pools=pools)
+        T += _mk("dyndep_pool_" + pname, [v], tags=["dyndep", "pool"], depth=min(d, 3), js=(2, 4), files={"dd.in": dd},
+                 max_fault_stmts=2, edits_during=False, touch_only=("dd.in",))
+
     return T
